@@ -15,3 +15,14 @@ func NewPolicy(p *ast.Policy) *cedar.Policy { return cedar.NewPolicyFromAST((*pu
 // Levels records the evidence level per property where it is not "exploration" (must agree
 // with MANIFEST level_claimed.category).
 var Levels = map[string]string{"C05": "fault_enumeration", "C10": "fault_enumeration", "C16": "fault_enumeration", "C18": "fault_enumeration"}
+
+// UsedPolicy returns a cedar.Policy value with a past: it already holds a parsed policy with
+// annotations, scope constraints and two conditions. Decoding a document into it must give
+// exactly the document's policy (nothing of the earlier contents may survive).
+func UsedPolicy() *cedar.Policy {
+	var p cedar.Policy
+	if err := p.UnmarshalCedar([]byte(`@stale("1") @id("stale") forbid(principal == Stale::"p", action in [Action::"stale"], resource is Stale in Stale::"r") when { context.stale } unless { principal.stale };`)); err != nil {
+		panic("UsedPolicy: " + err.Error())
+	}
+	return &p
+}
